@@ -89,6 +89,34 @@ pub fn sched(ctx: &mut Ctx) {
             .map(|p| std::path::Path::new(p).strip_prefix(&sbx.root).unwrap().to_string_lossy().to_string())
             .collect();
         let codec: Vec<&str> = [vec!["--zstd", "9"], vec!["--xz", "3"], vec!["--deflate", "6"]][case % 3].clone();
+        // an archive in which one path occurs twice (a large first version, a small second one, as `append` of a changed
+        // file leaves it): extraction with --overwrite must leave the later version, whatever the pool does
+        if case < 2 {
+            std::fs::create_dir_all(sbx.path("dup")).unwrap();
+            let big: Vec<u8> = (0..6_000_000u32).map(|i| (i % 251) as u8 ^ (i / 65_521) as u8).collect();
+            std::fs::write(sbx.path("dup/data.bin"), &big).unwrap();
+            std::fs::write(sbx.path("dup/other.txt"), b"other").unwrap();
+            let r1 = run_pna(&sbx, &sbx.root, &["--quiet", "create", "dup.pna", "--store", "-r", "dup"], None, 600, &[("RAYON_NUM_THREADS", "1")]);
+            std::fs::write(sbx.path("dup/data.bin"), b"version two").unwrap();
+            let r2 = run_pna(&sbx, &sbx.root, &["--quiet", "append", "dup.pna", "--store", "dup/data.bin"], None, 600, &[("RAYON_NUM_THREADS", "1")]);
+            if r1.ok() && r2.ok() {
+                for t in &threads {
+                    for rep in 0..2 {
+                        let out = format!("xd-{t}-{rep}");
+                        let r = run_pna(&sbx, &sbx.root, &["--quiet", "extract", "dup.pna", "--out-dir", out.as_str(), "--overwrite"], None, 600, &[("RAYON_NUM_THREADS", *t)]);
+                        ctx.oracle_eval();
+                        ctx.count("variant:extract-duplicate-name");
+                        let got = std::fs::read(sbx.path(&format!("{out}/dup/data.bin"))).unwrap_or_default();
+                        if !r.ok() || got != b"version two" {
+                            ctx.violation("C19", "extracting an archive that holds two versions of a path does not leave the later one under every pool size", json!({"case":case,"threads":t,"rep":rep,"run":r.brief(),"extracted_len":got.len()}));
+                        }
+                        let _ = std::fs::remove_dir_all(sbx.path(&out));
+                    }
+                }
+            }
+            let _ = std::fs::remove_file(sbx.path("dup.pna"));
+            let _ = std::fs::remove_dir_all(sbx.path("dup"));
+        }
         for variant in ["create", "create-solid", "create-split", "append", "update", "extract"] {
             let mut outputs: Vec<(String, Vec<Vec<u8>>, Option<std::collections::BTreeMap<String, crate::cli::Node>>)> = vec![];
             for (ti, t) in threads.iter().enumerate() {
